@@ -3,7 +3,7 @@
    SigSafe.v, SigSnapshot.v, SigQuiesce.v; Print Assumptions follows each. *)
 From Coq Require Import List NArith Bool.
 Import ListNotations.
-Require Import Util SigCore SigLemmas SigInv SigSafe SigSpec SigSnapshot SigQuiesce.
+Require Import Util SigCore SigLemmas SigInv SigSafe SigSpec SigSnapshot SigQuiesce SigFuel.
 Local Open Scope N_scope.
 
 (* no dangling iterator, double erase, use after free or runaway loop, whatever the running slots do *)
@@ -30,3 +30,18 @@ Print Assumptions C03_outermost_return_restores_quiescence.
 Theorem C03_lists_hold_exactly_connected_slots : S_quiescent_lists.
 Proof. exact quiescent_lists. Qed.
 Print Assumptions C03_lists_hold_exactly_connected_slots.
+
+(* the nesting bound of the interpreter is not part of the meaning: a run that does not hit it is
+   the same under every larger bound, so the theorems above (stated for every bound) speak about
+   arbitrarily deep re-entrant emission *)
+Theorem C03_nesting_bound_irrelevant_callee : S_fuel_monotone_callee.
+Proof. exact fuel_monotone_callee. Qed.
+Print Assumptions C03_nesting_bound_irrelevant_callee.
+
+Theorem C03_nesting_bound_irrelevant : S_fuel_monotone.
+Proof. exact fuel_monotone. Qed.
+Print Assumptions C03_nesting_bound_irrelevant.
+
+Theorem C03_reachable_grows_with_bound : S_reachable_mono.
+Proof. exact reachable_mono. Qed.
+Print Assumptions C03_reachable_grows_with_bound.
